@@ -64,18 +64,19 @@ func AmountFromFloat64(val float64, exp uint32) Amount {
 func AmountFromString(val string) (Amount, error) {
 	a := Amount{}
 	n := strings.HasPrefix(val, "-")
-	x := strings.Split(strings.TrimPrefix(val, "-"), ".")
+	x := strings.Split(val, ".")
 	l := len(x)
 	if l > 2 {
 		return a, fmt.Errorf("amount must contain 0 or 1 decimal separators: %v", val)
 	}
 
-	// Parse the "major" part
+	// Parse the "major" part together with its sign: there is one more
+	// negative value than there are positive ones
 	v, err := strconv.ParseInt(x[0], 10, 64)
 	if err != nil {
 		return a, fmt.Errorf("invalid major number '%v', %w", val, err)
 	}
-	if !isDigits(x[0]) {
+	if !isDigits(strings.TrimPrefix(x[0], "-")) {
 		return a, fmt.Errorf("invalid major number '%v', only digits expected", val)
 	}
 	e := uint32(0)
@@ -95,19 +96,22 @@ func AmountFromString(val string) (Amount, error) {
 			return a, fmt.Errorf("invalid decimal number '%v', too many decimal places", val)
 		}
 		p := intPow(10, e)
-		if v > (math.MaxInt64-v2)/p {
-			return a, fmt.Errorf("invalid number '%v', value out of range", val)
+		if n {
+			// the decimals of a negative amount count downwards
+			if v < (math.MinInt64+v2)/p {
+				return a, fmt.Errorf("invalid number '%v', value out of range", val)
+			}
+			v = v*p - v2
+		} else {
+			if v > (math.MaxInt64-v2)/p {
+				return a, fmt.Errorf("invalid number '%v', value out of range", val)
+			}
+			v = v*p + v2
 		}
-		v = v * p
-		v += v2
 	}
 
 	// Prepare the result
-	if n {
-		a.value = -v
-	} else {
-		a.value = v
-	}
+	a.value = v
 	a.exp = e
 	return a, nil
 }
